@@ -1,7 +1,7 @@
 # C03 — sender adaptors deliver exactly one, correct completion signal (structural part; DESIGN.md §5 C03)
 import re
 from engine.core import AnalysisBroken, P, T, callee_of, callee_short, cond_atoms, loc_of, strip, subexprs, block_path, is_moved
-from engine.kinds import LockFlow, FactFlow, CountFlow, precedes_on_all_paths, always_followed_by
+from engine.kinds import LockFlow, FactFlow, CountFlow, precedes_on_all_paths, always_followed_by, derives_from
 from engine.completions import Completions, CPO, NS
 from .common import facts, lib, driver, witness
 
@@ -266,7 +266,8 @@ def run(rep, tier):
                  (ev.get("k") == "call" and callee_short(ev) == "store" and P(ev.get("recv") or {}).endswith("predecessor_done"))]
             lk = [(b, i, ev) for b, i, ev in fn.all_events() if ev.get("k") in ("ctor", "decl") and (ev.get("rec") in ("std::lock_guard", "std::unique_lock"))]
             rs = [(b, i, ev) for b, i, ev in fn.all_events() if ev.get("k") == "call" and callee_short(ev) == "reset" and P(ev.get("recv")).endswith("os")]
-            loopcalls = [(b, i, ev) for b, i, ev in fn.all_events() if ev.get("k") == "call" and ev.get("op") == "()" and "continuation" in T(ev)]
+            # invocations of an element of the continuations container (whatever the loop variable is called)
+            loopcalls = [(b, i, ev) for b, i, ev in fn.all_events() if ev.get("k") == "call" and ev.get("op") == "()" and derives_from(fn, ev, lambda t: "this->continuation" in t)]
             ok = len(w) == 1 and lk and loopcalls and T(strip(w[0][2]["rhs"] if w[0][2].get("k") == "write" else w[0][2]["args"][0])) == "true"
             if ok:
                 ok = precedes_on_all_paths(fn, lambda e: e is w[0][2], (lk[0][0], lk[0][1])) and \
